@@ -6,7 +6,7 @@ Extraction "../ocaml/dpe.ml"
   rdpe_norm rdpe_set_d rdpe_set_2dl rdpe_get_d rdpe_get_d_old
   rdpe_neg rdpe_abs rdpe_inv rdpe_sqr rdpe_sqr_eq rdpe_sqrt
   rdpe_mul rdpe_mul_old rdpe_mul_d rdpe_mul_d_old rdpe_mul_2exp rdpe_div_2exp
-  rdpe_div rdpe_div_d rdpe_add rdpe_add_old_out_of_model rdpe_add_eq rdpe_sub rdpe_sub_eq
+  rdpe_div rdpe_div_d rdpe_add rdpe_add_old_out_of_model rdpe_add_eq rdpe_sub rdpe_sub_eq rdpe_add_old rdpe_add_eq_old rdpe_sub_old rdpe_cmp_old
   rdpe_pow_si rdpe_pow_si_old
   rdpe_cmp rdpe_sgn rdpe_eq_zero rdpe_eq rdpe_ne
   rdpe_lt rdpe_le rdpe_gt rdpe_ge rdpe_lt_old rdpe_le_old rdpe_gt_old rdpe_ge_old
